@@ -15,6 +15,7 @@ func init() {
 			{"header-strictness", "verifyHeader rejects a timestamp equal to or earlier than the previous one (three orderings folded); the state-root module stores its local root and local height together", ruleHeaderStrictness},
 			{"commit-point", "no error exit of storeBlock is reachable after the PersistPrivate publish (one tabled exception), and the publish is gated by the MPT update and the storing goroutine's outcome", ruleCommitPoint},
 			{"admit-dominators", "the per-transaction verification a block goes through (verifyAndPoolTx) is gated by every admission check - script, expiry, policy for every signer, size, fee, on-chain conflicts, witnesses, attributes: a block of individually invalid transactions is not an acceptable extension", ruleAdmitDominators},
+			{"witness-covered-shortcut", "a shortcut of AddBlock that is keyed by a hash (header already known, transaction already pooled) looks at the witness it is about to store - the hash covers neither a header's nor a transaction's witness", ruleWitnessCoveredShortcut},
 			{"accept-dominators", "every acceptance check (index, state-root setting, header link/verification, Merkle root, per-transaction verification; header chain checks and witness against the previous NextConsensus) gates storeBlock / HeaderHashes.addHeaders on every CFG path", ruleAcceptDominators},
 		},
 		NotCovered: "that each check computes the right thing; witness VM semantics; that the correct block is still accepted afterwards",
